@@ -57,6 +57,7 @@ Definition ns_empty : ns := mkNs [] [] [] 0 [] true false.
 
 Inductive op :=
 | AddTaxon (t : tid)
+| AddTaxa (ts : list tid)       (* add_taxa(iterable of Taxon objects): the SAME object may occur repeatedly *)
 | NewTaxon (l : lbl)
 | NewTaxa (ls : list lbl)
 | RequireTaxon (l : lbl) (cs : option bool)
@@ -122,6 +123,17 @@ Definition add_taxon (n : ns) (t : tid) : res ns :=
     if negb (is_mut n) then Err TypeErr
     else Ok (mkNs (taxa n ++ [t]) (aset t (count n) (acc n)) (aset (count n) t (rev n))
                   (count n + 1) (bm n) (is_mut n) (is_cs n))
+  end.
+
+(* add_taxa:  for t in taxa: self.add_taxon(t)
+   membership is re-examined for every element, so an object that occurs twice in one batch is
+   accessioned by its first occurrence and skipped by the later ones.  An exception can only be
+   raised by the first element that is not a member, and only in an immutable namespace, i.e.
+   before anything was changed (Proofs/C10Inv.v add_taxa_err_unchanged): `Err` = untouched state *)
+Fixpoint add_taxa (n : ns) (ts : list tid) : res ns :=
+  match ts with
+  | [] => Ok n
+  | t :: r => match add_taxon n t with Ok n' => add_taxa n' r | e => e end
   end.
 
 (* new_taxon: returns the new world and the new taxon *)
@@ -279,6 +291,7 @@ Definition step (w : world) (o : op) : world * out :=
   let n := w_ns w in
   match o with
   | AddTaxon t => lift_ns w (add_taxon n t) OUnit
+  | AddTaxa ts => lift_ns w (add_taxa n ts) OUnit
   | NewTaxon l =>
     match new_taxon w l with
     | Ok (w', t) => (w', OTax (Some t))
